@@ -834,7 +834,8 @@ func (w *World) start(a *actor) {
 		case "PodDeleted":
 			pod := &v1.Pod{}
 			if err := w.base.Get(ctx, client.ObjectKey{Namespace: podNS, Name: podName(a.P)}, pod); err != nil {
-				fatal("PodDeleted: %v", err)
+				w.skip(a) // the schedule's event does not apply to the real store (e.g. the pod is already gone)
+				return
 			}
 			if err := w.base.Delete(ctx, pod); err != nil {
 				fatal("PodDeleted: %v", err)
@@ -845,8 +846,9 @@ func (w *World) start(a *actor) {
 			}
 		case "PodCompleted":
 			old := &v1.Pod{}
-			if err := w.base.Get(ctx, client.ObjectKey{Namespace: podNS, Name: podName(a.P)}, old); err != nil {
-				fatal("PodCompleted: %v", err)
+			if err := w.base.Get(ctx, client.ObjectKey{Namespace: podNS, Name: podName(a.P)}, old); err != nil || old.Status.Phase != v1.PodRunning {
+				w.skip(a)
+				return
 			}
 			upd := old.DeepCopy()
 			upd.Status.Phase = v1.PodSucceeded
@@ -860,7 +862,8 @@ func (w *World) start(a *actor) {
 		case "BRDeleted":
 			br := &v1alpha2.BindRequest{}
 			if err := w.base.Get(ctx, client.ObjectKey{Namespace: podNS, Name: brName(a.P)}, br); err != nil {
-				fatal("BRDeleted: %v", err)
+				w.skip(a)
+				return
 			}
 			if err := w.base.Delete(ctx, br); err != nil {
 				fatal("BRDeleted: %v", err)
@@ -891,6 +894,12 @@ func (w *World) start(a *actor) {
 	}()
 	<-ready
 	w.await(a)
+}
+
+// skip: an event of the schedule that is not applicable in the real store is dropped (counted)
+func (w *World) skip(a *actor) {
+	a.started, a.finished = true, true
+	w.desync++
 }
 
 func (w *World) grantable(a *actor) bool {
@@ -1044,8 +1053,10 @@ func (w *World) envStep(st Step) {
 	switch st.E {
 	case "PodRunning":
 		pod := &v1.Pod{}
-		if err := w.base.Get(ctx, client.ObjectKey{Namespace: podNS, Name: podName(st.P)}, pod); err != nil {
-			fatal("PodRunning: %v", err)
+		if err := w.base.Get(ctx, client.ObjectKey{Namespace: podNS, Name: podName(st.P)}, pod); err != nil ||
+			pod.Status.Phase != v1.PodPending || pod.Spec.NodeName == "" {
+			w.desync++
+			return
 		}
 		pod.Status.Phase = v1.PodRunning
 		if err := w.base.Status().Update(ctx, pod); err != nil {
